@@ -126,6 +126,12 @@ func translateFunc(p *Pkg, key string, fd *ast.FuncDecl, isInit bool) *Func {
 			ft.write(unknownSet.copy(), "")
 		}
 	}
+	if !poolDisciplineOK(fd.Body) {
+		// a pooled object is Put twice on some path, or used after its Put (pool.go): Get() is then
+		// not a fresh, exclusively owned object any more
+		fmt.Fprintf(os.Stderr, "effgen: %s breaks the ownership discipline of pooled objects (Put twice or use after Put)\n", key)
+		ft.write(unknownSet.copy(), "")
+	}
 	if ft.putEscapes() {
 		// an object that is in the pool is also reachable by the caller (returned or
 		// stored): a later Get() of some other call would hand out a shared object
